@@ -87,6 +87,9 @@ func (c netCfg) summary() string {
 	return s
 }
 
+// maxInflight bounds the messages on their way to one node.
+const maxInflight = 1000
+
 // simnet carries every message between nodes. Decisions (drop, duplicate,
 // delay) are drawn from one seeded stream under the lock, in the order the
 // senders reach it.
@@ -100,11 +103,12 @@ type simnet struct {
 	counters map[string]int64
 	linkSeq  map[[2]int]int64 // last sequence number handed to a link
 	linkSeen map[[2]int]int64 // highest sequence number delivered on a link
+	inflight map[int]int      // messages on their way to (or being handled by) a node
 	seq      int64
 }
 
 func newSimnet(r *rng.R) *simnet {
-	return &simnet{r: r, cfg: netCfg{Kind: "quiet"}, counters: map[string]int64{}, linkSeq: map[[2]int]int64{}, linkSeen: map[[2]int]int64{}}
+	return &simnet{r: r, cfg: netCfg{Kind: "quiet"}, counters: map[string]int64{}, linkSeq: map[[2]int]int64{}, linkSeen: map[[2]int]int64{}, inflight: map[int]int{}}
 }
 
 func (n *simnet) attach(cl *cluster) { n.cl = cl }
@@ -166,6 +170,13 @@ func (n *simnet) send(from, to int, kind, sub string, view int, fn func()) {
 		n.mu.Unlock()
 		return
 	}
+	// like a peer's send queue the path to a node is finite: a message storm
+	// loses messages instead of piling them up
+	if n.inflight[to] >= maxInflight {
+		n.counters["dropped_receiver_queue_full"]++
+		n.mu.Unlock()
+		return
+	}
 	copies := 1
 	if c.Dup > 0 && n.r.Intn(100) < c.Dup {
 		copies = 2
@@ -194,11 +205,17 @@ func (n *simnet) send(from, to int, kind, sub string, view int, fn func()) {
 		plans[i] = plan{d, n.seq}
 	}
 	n.wg.Add(copies)
+	n.inflight[to] += copies
 	n.mu.Unlock()
 	for _, p := range plans {
 		p := p
 		run := func() {
 			defer n.wg.Done()
+			defer func() {
+				n.mu.Lock()
+				n.inflight[to]--
+				n.mu.Unlock()
+			}()
 			n.mu.Lock()
 			if n.closed {
 				n.counters["undelivered_at_close"]++
